@@ -9,12 +9,7 @@ HERE = os.path.dirname(os.path.dirname(os.path.abspath(__file__)))
 VERIF = os.path.dirname(HERE)
 sys.path.insert(0, HERE)
 
-NOT_APPLICABLE = {
-    "C04": "The property equates the value of 108 functions on all inputs with prose documentation; its truth "
-           "lives in run-time values ((take xs 0), (take_last \"1234\" 2)), not in the shape of the code, and no "
-           "sound static argument in reach can bound them. Its shape-visible side conditions are decided under "
-           "C05 (no panic on ill-typed arguments), C10 (Float normalisation) and C13 (registration/alias table).",
-}
+NOT_APPLICABLE = {}
 
 props = [json.loads(l) for l in open(os.path.join(VERIF, "properties.jsonl"))]
 checks = []
